@@ -105,7 +105,13 @@ CHECKS = {
              "a type declaration, null behind `of` in a procedure) are repaired in /repo f933470. The statement over ALL positions "
              "of the four classes is refuted (C16_full_statement_refuted): five position classes on which the classifier answers "
              "null or incompletely are known findings (cursor directly behind a token, comment line before the cursor, start of a "
-             "non-block branch/loop body, parenthesis left of `:=`, start of the text) - hence `other`. Decided per input: model = "
+             "branch/loop body, parenthesis left of `:=`, start of the text) - hence `other`. The classifier is characterised "
+             "EXACTLY: for every valid program and every cursor position of a procedure declaration (in a gap or directly behind a "
+             "token) the answer is the rendering of an explicit function of the abstract syntax, proc_spec "
+             "(C16_body_positions_classified, by one mutual induction; C16_classifier_equations), and each of the five finding "
+             "classes is a theorem stating what is answered there (C16_directly_behind_*, C16_comment_before_cursor*, "
+             "C16_text_start, C16_branch_statement_start, C16_paren_left_of_assign, C16_assignment_call_positions) - so the list of "
+             "findings is proved complete for the positions inside procedures. Decided per input: model = "
              "server; multiset oracle from the derivation for the position classes incl. the new type positions; answers along edit "
              "histories.",
         design_ref="DESIGN.md sections 5 (C16) and 10.2",
